@@ -206,6 +206,24 @@ let run (kind : string) (toks : string list) : string option =
        let (p64, p32) = parsers_of_table orc in
        let doc = Drv_xmltree.parse_dump tree in
        Some (show_res (XmlExtract.extract_all_impl p64 p32 doc)))
+  | "RNEWM" ->
+    (* RNEWM <oracle entries...> ;; <file bytes: hex or @base^patches>: Model/ReaderFull.reader_new_impl *)
+    let (orc, file) = split_at_sep toks in
+    (match file with
+     | [tok] ->
+       let (p64, p32) = parsers_of_table orc in
+       let d0 = Device.dev_init (resolve_dev tok) None in
+       (match ReaderFull.reader_new_impl p64 p32 d0 with
+        | (_, Prelude.Ok (_, m)) -> Some ("OK " ^ dump_meta m)
+        | (_, Prelude.Err k) ->
+          (* documents outside the parser model are answered Err Invalid by the model: tell them apart *)
+          let unsupported =
+            (match ReaderOpen.reader_open d0 with
+             | (_, Prelude.Ok (_, xml)) -> (match XmlParse.xml_read xml with XmlParse.XmlUnsupported -> true | _ -> false)
+             | _ -> false) in
+          Some (if unsupported then "UNSUPPORTED" else "E:" ^ err_name k)
+        | (_, Prelude.Panic) -> Some "PANIC")
+     | _ -> failwith "bad RNEWM case")
   | "XEWIT" ->
     (* the tree of a witness document of Proofs/XeRefute.v / XeExtRecords.v, in the dump format *)
     let d = match toks with
